@@ -78,8 +78,7 @@ CompactArrayLength(c) ==
   LET W == UvarW(c) IN
   IF H < W THEN Insuf(CStr(c, 0)) ELSE
   LET R == H - W  l == CNum(c, R)  v == IF c = "null" THEN 0 ELSE l  s == CStr(c, R) IN
-  IF Fixed /\ v < -1 THEN Inval(off + W, s)
-  ELSE IF Fixed /\ v > R THEN Insuf(s)
+  IF Fixed /\ (v > R \/ c = "wrap") THEN Insuf(s)          \* fix: n-1 compared (unsigned) with the remainder
   ELSE Out("ok", off + W, RetClass(v, R), s, IF v < -1 THEN {"len<-1"} ELSE IF v > R THEN {"len>rem"} ELSE {})
 
 String16(c) ==
@@ -93,9 +92,13 @@ CompactString(c, nullable) ==
   LET W == UvarW(c) IN
   IF H < W THEN Insuf(CStr(c, 0)) ELSE
   LET R == H - W  l == CNum(c, R)  s == CStr(c, R) IN
-  IF nullable /\ l < 0 THEN Ok(off + W, s)                   \* "if length < 0 { return nil, err }": 2^64-1 reads as null
-  ELSE IF l < 0 THEN (IF Fixed THEN Inval(off + W, s) ELSE Panic(off + W, s))       \* raw[off : off-1]
-  ELSE IF l > R THEN (IF Fixed THEN Insuf(s) ELSE Panic(off + W, s))                \* raw[off : off+l] beyond the buffer
+  IF Fixed THEN
+     (IF c = "null" THEN (IF nullable THEN Ok(off + W, s) ELSE Inval(off + W, s))
+      ELSE IF l > R \/ c = "wrap" THEN Insuf(s)
+      ELSE Ok(off + W + l, s))
+  ELSE IF nullable /\ l < 0 THEN Ok(off + W, s)              \* "if length < 0 { return nil, err }": 2^64-1 reads as null
+  ELSE IF l < 0 THEN Panic(off + W, s)                       \* raw[off : off-1]
+  ELSE IF l > R THEN Panic(off + W, s)                       \* raw[off : off+l] beyond the buffer
   ELSE Ok(off + W + l, s)
 
 Bytes32(c) ==
@@ -136,7 +139,9 @@ StringArray(c) ==          \* n strings; the zero payload makes each of them an 
   IF H < 4 THEN Insuf("0") ELSE
   LET R == H - 4  n == ENum(c, R, 2)  s == EStr(c, R, 2) IN
   IF n = 0 THEN Ok(off + 4, s)
-  ELSE IF Fixed /\ n > R THEN Insuf(s)
+  ELSE IF Fixed /\ c = "m1" THEN Ok(off + 4, s)              \* fix: signed count, -1 is the null array
+  ELSE IF Fixed /\ c = "m2" THEN Inval(off + 4, s)
+  ELSE IF Fixed /\ 2 * n > R THEN Insuf(s)                   \* fix: every string takes >= 2 bytes
   ELSE IF n = BIG THEN Oom(off + 4, s)                        \* make([]string, n) before anything is checked
   ELSE IF 2 * n <= R THEN Ok(off + 4 + 2 * n, s) ELSE Insuf(s)
 
@@ -147,7 +152,7 @@ CompactInt32Array(c) ==
       l == CASE c = "null" -> -1 [] c = "z" -> 0 [] c = "rem" -> k [] c = "rem1" -> k + 1 [] c = "wrap" -> -2 [] OTHER -> BIG
       s == CASE c = "rem" -> ToString(k + 1) [] c = "rem1" -> ToString(k + 2) [] OTHER -> CStr(c, R) IN
   IF c = "null" THEN Ok(off + W, s)
-  ELSE IF l < 0 THEN (IF Fixed THEN Inval(off + W, s) ELSE Panic(off + W, s))         \* make([]int32, -2)
+  ELSE IF l < 0 THEN (IF Fixed THEN Insuf(s) ELSE Panic(off + W, s))                  \* make([]int32, -2)
   ELSE IF 4 * l > R THEN
        (IF Fixed THEN Insuf(s)
         ELSE IF l = BIG THEN Oom(off + W, s)                                          \* make([]int32, 2^31-1)
